@@ -229,3 +229,14 @@ func ZeroBytes(label string, maxLen int) []byte {
 	}
 	return make([]byte, n)
 }
+
+// Atomically runs f the way baseapp / IBC core run a message: on a cached context whose writes are
+// committed only if f returns nil (assumption E1). Symbolically: snapshot / restore of the collections.
+func Atomically(ctx sdk.Context, f func(ctx sdk.Context) error) error {
+	cctx, write := ctx.CacheContext()
+	err := f(cctx)
+	if err == nil {
+		write()
+	}
+	return err
+}
